@@ -679,6 +679,9 @@ fn panic_site(stream: &[u8]) -> String {
 
 // ---------------------------------------------------------------- shrinking a failing table
 
+/// at most this many failing tables are shrunk per run (each costs up to 400 driver calls)
+static SHRINKS_LEFT: std::sync::atomic::AtomicI64 = std::sync::atomic::AtomicI64::new(16);
+
 fn has_fail(o: &Outcome, kind: &str, sig: &str) -> bool {
     o.fails.iter().any(|f| f.0 == kind && f.1 == sig)
 }
@@ -1153,6 +1156,54 @@ fn corpus() -> Vec<(String, Option<String>)> {
 
 // ---------------------------------------------------------------- work distribution
 
+/// stage E: the Workbook / Book stream of every .xls fixture of the repo, through `dec` (impl vs model on
+/// string tables written by Excel / LibreOffice and friends)
+fn fixture_streams() -> Vec<(String, Vec<u8>)> {
+    let mut out = vec![];
+    let mut paths: Vec<_> = match std::fs::read_dir("/repo/tests") {
+        Ok(d) => d.filter_map(|e| e.ok()).map(|e| e.path()).filter(|p| p.extension().map(|x| x == "xls").unwrap_or(false)).collect(),
+        Err(_) => vec![],
+    };
+    paths.sort();
+    for p in paths {
+        let bytes = match std::fs::read(&p) {
+            Ok(b) => b,
+            Err(_) => continue,
+        };
+        let name = p.file_name().unwrap().to_string_lossy().to_string();
+        let res = guarded(|| {
+            let mut cur = std::io::Cursor::new(&bytes);
+            let mut cfb = calamine::verif_hooks::cfb::Cfb::new(&mut cur, bytes.len()).ok()?;
+            for s in ["Workbook", "Book"] {
+                if let Ok(st) = cfb.get_stream(s, &mut cur) {
+                    return Some(st);
+                }
+            }
+            None
+        });
+        if let Ok(Some(st)) = res {
+            if alloc_safe_any(&st) {
+                out.push((name, st));
+            }
+        }
+    }
+    out
+}
+
+/// cstUnique of the first SST record of a workbook stream stays small enough for `Vec::with_capacity`
+fn alloc_safe_any(stream: &[u8]) -> bool {
+    let mut p = 0usize;
+    while p + 4 <= stream.len() {
+        let typ = u16::from_le_bytes([stream[p], stream[p + 1]]);
+        let n = u16::from_le_bytes([stream[p + 2], stream[p + 3]]) as usize;
+        if typ == 0x00FC {
+            return p + 12 > stream.len() || alloc_safe(&stream[p..]);
+        }
+        p += 4 + n;
+    }
+    true
+}
+
 enum Job {
     /// seed of one table: 8 layouts
     Table(u64),
@@ -1205,7 +1256,7 @@ fn run_job_inner(job: &Job, drv: &mut Driver) -> Vec<Outcome> {
                 let mut o = run_case(&line, drv);
                 // a failing legal layout: report the shrunk table under the same signature as well
                 if let Some(f) = o.fails.iter().find(|f| f.0 != "model_vs_spec").cloned() {
-                    if line.len() > 120 {
+                    if line.len() > 120 && SHRINKS_LEFT.fetch_sub(1, std::sync::atomic::Ordering::SeqCst) > 0 {
                         let small = shrink_case(&line, &f.0, &f.1, drv);
                         for sf in small.fails.iter().filter(|sf| sf.0 == f.0 && sf.1 == f.1) {
                             o.fails.push(sf.clone());
@@ -1303,6 +1354,7 @@ fn main() {
          stage D: one layout of each table inside a complete .xls (xlsw writer, random compound-file layout): LABELSST cell per \
          string, inline LABEL cells and FORMULA+STRING results for strings <= 2000 units, sheet names = first <= 30 units of a \
          table string (NUL excluded), read through Xls::new / sheet_names / worksheet_range against the stored text. \
+         stage E: the Workbook/Book stream of every tests/*.xls fixture through the SST reader (impl vs model). \
          stage C: parse_short_string/parse_string payloads (BIFF8 8/16-bit and BIFF5, empty, truncated) against the stored text \
          (not asserted: the empty BIFF5 short string, whose only reader is the sheet-name field). \
          non-trivial = a legal table with at least one break inside characters/rgRun/ExtRst, or a raw case the reader accepts; \
@@ -1314,6 +1366,11 @@ fn main() {
     } else {
         for (l, e) in corpus() {
             jobs.push(Job::Line(l, e));
+        }
+        let fx = fixture_streams();
+        rep.add("fixture.workbook_streams", fx.len() as u64);
+        for (_, st) in fx {
+            jobs.push(Job::Line(format!("dec {}", hexs(&st)), None));
         }
         let n = args.count(5000, 500_000);
         let mut rng = Rng::new(args.seed);
